@@ -713,12 +713,12 @@ func voxelRange(blockSize, begBlock, endBlock, begVoxel, endVoxel int32) (int32,
 func (d *Data) GetMask(ctx *datastore.VersionedCtx, subvol *dvid.Subvolume) ([]byte, error) {
 	pt0 := subvol.StartPoint()
 	pt1 := subvol.EndPoint()
-	minBlockZ := pt0.Value(2) / d.BlockSize[2]
-	maxBlockZ := pt1.Value(2) / d.BlockSize[2]
-	minBlockY := pt0.Value(1) / d.BlockSize[1]
-	maxBlockY := pt1.Value(1) / d.BlockSize[1]
-	minBlockX := pt0.Value(0) / d.BlockSize[0]
-	maxBlockX := pt1.Value(0) / d.BlockSize[0]
+	// Block coordinates of the subvolume corners; Chunk() rounds toward negative infinity
+	// so that voxels with negative coordinates land in their (negative) block.
+	minBlock := dvid.Point3d{pt0.Value(0), pt0.Value(1), pt0.Value(2)}.Chunk(d.BlockSize).(dvid.ChunkPoint3d)
+	maxBlock := dvid.Point3d{pt1.Value(0), pt1.Value(1), pt1.Value(2)}.Chunk(d.BlockSize).(dvid.ChunkPoint3d)
+	minBlockX, minBlockY, minBlockZ := minBlock[0], minBlock[1], minBlock[2]
+	maxBlockX, maxBlockY, maxBlockZ := maxBlock[0], maxBlock[1], maxBlock[2]
 
 	minIndex := minIndexByBlockZ(minBlockZ)
 	maxIndex := maxIndexByBlockZ(maxBlockZ)
